@@ -101,7 +101,11 @@ def check(ctx):
               "a failed request must close its own connection only and the loop must go on to the other connections")
     sp = ctx.cls("aio.http.clienting", "Patron").own_method("serviceResponse")
     hs = [h for h in ast.walk(sp) if isinstance(h, ast.ExceptHandler)]
-    ok = bool(hs) and dotted(hs[0].type) == "httping.HTTPException" and "self.respondent.errored = True" in src(hs[0]) and not any(isinstance(x, ast.Raise) for x in ast.walk(hs[0]))
+    SPV = FuncView(ctx, sp, exc="calls")
+    inh = {id(x) for h in hs for x in ast.walk(h)}
+    err = [n for n in SPV.stores("self.respondent.errored") if id(n.ast) in inh and isinstance(n.ast, ast.Assign) and
+           isinstance(n.ast.value, ast.Constant) and n.ast.value.value is True]
+    ok = bool(hs) and dotted(hs[0].type) == "httping.HTTPException" and bool(err) and not any(isinstance(x, ast.Raise) for x in ast.walk(hs[0]))
     ctx.check(ok, "T1-contain", sp, "Patron.serviceResponse records errored/error instead of raising", "a malformed response is recorded")
     # the containing service loops themselves (their error arms are exactly the never-tested paths)
     loops = [sr, sp] + [m for m in (ctx.cls("aio.http.serving", "Valet").own_method(n) for n in ("closeConnection", "serviceReps", "serviceAll")) if m is not None]
